@@ -58,4 +58,82 @@ theorem Facts_wiring : (expectedWiring.all fun w =>
     Facts.flags.contains (w.1.toList, w.2.1.toList, w.2.2.1.toList) &&
     Facts.setters.contains (w.2.2.2.toList, w.2.2.1.toList, 0)) = true := by decide +kernel
 
+/-! ### program state: the model treats every function on the redaction path as a pure function of
+    (line, configuration).  The source facts below are what that rests on: the package-level variables
+    are the operator tables, three compiled regular expressions, the option variables and one
+    write-only side table; option variables are written by their setters only; nothing else is ever
+    assigned, and no `init` function runs before the flags are parsed. -/
+
+def expectedGlobals : List String := [
+  "AggregationOperators", "CoreOperators", "OperatorMapDefs", "RedactedFieldMapping", "SearchAggregationOperators",
+  "SearchOperators", "TopLevelSearchOperators", "atlasLogEndDate", "atlasLogStartDate", "defaultLogDuration",
+  "eagerRedactionPaths", "emailRegex", "encryptionKey", "geoJSON", "ixscanRegex", "redactBooleans", "redactIPs",
+  "redactNamespaces", "redactNumbers", "redactedFieldsRegexp", "redactedString", "shouldEncrypt", "version"]
+
+/-- **no state beyond the known variables**: a cache, memo table, counter or reusable buffer at package
+    level would be a new name here -/
+theorem Facts_globals : sameSet Facts.globals (expectedGlobals.map String.toList) = true := by decide +kernel
+
+/-- methods that only read their receiver (ordered-map lookup, regular-expression matching) -/
+def readOnlyMethods : List String :=
+  ["method:Get", "method:MatchString", "method:FindAllStringSubmatch", "method:ReplaceAllStringFunc"]
+
+def expectedWriters : List (String × String) := [
+  ("redactedString", "SetRedactedString"), ("redactNumbers", "SetRedactNumbers"), ("redactBooleans", "SetRedactBooleans"),
+  ("redactIPs", "SetRedactIPs"), ("redactNamespaces", "SetRedactNamespaces"), ("eagerRedactionPaths", "SetEagerRedactionPaths"),
+  ("redactedFieldsRegexp", "SetRedactedFieldsRegexp"), ("encryptionKey", "SetEncryptionKey"), ("shouldEncrypt", "SetShouldEncrypt"),
+  ("atlasLogStartDate", "SetAtlasLogStartDate"), ("atlasLogEndDate", "SetAtlasLogEndDate"),
+  ("atlasLogStartDate", "GetStartAndEndDates"), ("atlasLogEndDate", "GetStartAndEndDates"),
+  ("RedactedFieldMapping", "HashName"), ("version", "main")]
+
+/-- **who may change what**: every assignment to (or address-taking / mutating call on) a package-level
+    variable is one of the listed (variable, function) pairs: each option variable is written by its own
+    setter and by nothing else (in particular no setter writes a second option), the operator tables
+    and regular expressions are only read, the side table is written by `HashName` only -/
+theorem Facts_writes : (Facts.globalWrites.all fun w =>
+    (readOnlyMethods.map String.toList).contains w.2.2 ||
+      (w.2.2 == "assign".toList && (expectedWriters.map fun p => (p.1.toList, p.2.toList)).contains (w.1, w.2.1))) = true := by
+  decide +kernel
+
+/-- the pseudonym side table is write-only: its single occurrence in the whole program is the
+    assignment inside `HashName` (so a pseudonym cannot depend on earlier calls) -/
+theorem Facts_mapping_write_only :
+    (Facts.globalRefs.filter fun r => r.1 == "RedactedFieldMapping".toList) = [("RedactedFieldMapping".toList, "HashName".toList, 1)] := by
+  decide +kernel
+
+/-- no `init` function; the only package-level initialisers that call functions build the operator tables -/
+theorem Facts_inits : (Facts.inits.all fun i => i.take 17 == "operators.go:var ".toList) = true := by decide +kernel
+
+/-- **configuration footprint**: which function reads which option variable / table — the dependencies the
+    model gives the corresponding definitions (`redactScalar` reads numbers/booleans/regexp/replacement,
+    `redactString` the key and the encrypt switch, `RedactMongoLog` IPs/namespaces/eager paths,
+    `HashName` the replacement, …) -/
+def expectedFootprint : List (String × String) := [
+  ("AggregationOperators", "<package initialiser operators.go>"), ("AggregationOperators", "getOp"),
+  ("CoreOperators", "getOp"), ("CoreOperators", "redactArrayValuesWithKey"), ("CoreOperators", "redactPipelineStage"),
+  ("CoreOperators", "redactQueryValues"), ("CoreOperators", "traverseMapPath"), ("OperatorMapDefs", "traverseMapPath"),
+  ("RedactedFieldMapping", "HashName"), ("SearchAggregationOperators", "getOp"),
+  ("SearchOperators", "<package initialiser operators.go>"), ("SearchOperators", "getOp"), ("SearchOperators", "traverseMapPath"),
+  ("TopLevelSearchOperators", "isInSearchStage"),
+  ("atlasLogEndDate", "GetStartAndEndDates"), ("atlasLogEndDate", "SetAtlasLogEndDate"),
+  ("atlasLogStartDate", "GetStartAndEndDates"), ("atlasLogStartDate", "SetAtlasLogStartDate"),
+  ("defaultLogDuration", "GetStartAndEndDates"),
+  ("eagerRedactionPaths", "RedactMongoLog"), ("eagerRedactionPaths", "SetEagerRedactionPaths"),
+  ("emailRegex", "IsEmail"), ("encryptionKey", "SetEncryptionKey"), ("encryptionKey", "redactString"),
+  ("geoJSON", "<package initialiser operators.go>"),
+  ("ixscanRegex", "ParsePlanSummary"), ("ixscanRegex", "redactFieldNamesFromPlanSummary"),
+  ("redactBooleans", "SetRedactBooleans"), ("redactBooleans", "redactScalarValue"),
+  ("redactIPs", "RedactMongoLog"), ("redactIPs", "SetRedactIPs"),
+  ("redactNamespaces", "RedactMongoLog"), ("redactNamespaces", "SetRedactNamespaces"), ("redactNamespaces", "redactPipelineStage"),
+  ("redactNumbers", "SetRedactNumbers"), ("redactNumbers", "redactScalarValue"),
+  ("redactedFieldsRegexp", "SetRedactedFieldsRegexp"), ("redactedFieldsRegexp", "augmentOp"),
+  ("redactedFieldsRegexp", "isRedactableFieldPatternInArray"), ("redactedFieldsRegexp", "redactArrayValuesWithKey"),
+  ("redactedFieldsRegexp", "redactScalarValue"),
+  ("redactedString", "HashName"), ("redactedString", "SetRedactedString"), ("redactedString", "redactScalarValue"),
+  ("shouldEncrypt", "SetShouldEncrypt"), ("shouldEncrypt", "redactString"), ("version", "main")]
+
+theorem Facts_footprint :
+    sameSet (Facts.globalRefs.map fun r => (r.1, r.2.1)) (expectedFootprint.map fun p => (p.1.toList, p.2.toList)) = true := by
+  decide +kernel
+
 end Anonymongo
